@@ -183,6 +183,8 @@ def gen_dict(rng, bare=False):
         for k in rng.sample(cand, min(len(cand), rng.choice([1, 1, 2]))):
             hdr[k] = rng.choice([" %s", "%s\n", "%s ", "\t%s"]) % hdr[k]
     st = {"op": "newdict", "hdr": hdr, "rows": rows}
+    if rng.random() < 0.12:
+        st["strkeys"] = True          # row ids as numeric strings ('1', '2'): accepted by the constructor
     # meta entries (string keys) of the caller's dictionary; 'filename' is the one the
     # constructor looks at.  "front" = inserted before the header key
     if rng.random() < 0.45:
@@ -217,7 +219,7 @@ def gen_case(rng, max_steps=12):
     steps = [gen_dict(rng, bare=rng.random() < 0.08)]
     d0 = steps[0]
     shadow = [{"kind": "dict", "cls": "dict", "hdr": list(d0["hdr"]), "ids": [r[0] for r in d0["rows"]],
-               "vals": [c for r in d0["rows"] for c in r[1]], "ok": True}]
+               "vals": [c for r in d0["rows"] for c in r[1]], "ok": True, "strkeys": bool(d0.get("strkeys"))}]
     nsteps = rng.randint(4, max_steps)
     # a construction early on, so that there is something to share
     plan = ["cons"] + [None] * (nsteps - 1)
@@ -236,9 +238,14 @@ def gen_case(rng, max_steps=12):
             st = gen_dict(rng, bare=rng.random() < 0.1)
             steps.append(st)
             shadow.append({"kind": "dict", "cls": "dict", "hdr": list(st["hdr"]), "ids": [r[0] for r in st["rows"]],
-                           "vals": [c for r in st["rows"] for c in r[1]], "ok": True})
+                           "vals": [c for r in st["rows"] for c in r[1]], "ok": True,
+                           "strkeys": bool(st.get("strkeys"))})
         elif kind == "cons":
-            src = rng.choice(live[-3:]) if rng.random() < 0.8 else rng.choice(live)
+            # an object built from a dictionary with numeric-string keys keeps the caller's rows in
+            # _meta and a copy of IT is built from those (recorded observation, outside C19 and
+            # outside the model): such objects are not used as sources
+            oksrc = [k for k in live if not (shadow[k]["kind"] == "wl" and shadow[k].get("strkeys"))]
+            src = rng.choice(oksrc[-3:]) if rng.random() < 0.8 else rng.choice(oksrc)
             so = shadow[src]
             cls = rng.choices(["QLCParser", "Wordlist", "LexStat", "Alignments"], weights=[15, 45, 25, 15])[0]
             if so["cls"] == "LexStat" and cls == "Alignments" or rng.random() < 0.02:
@@ -254,7 +261,7 @@ def gen_case(rng, max_steps=12):
             if cls == "Alignments" and "alignment" not in hdr:
                 hdr += ["alignment"]
             shadow.append({"kind": "wl", "cls": cls, "hdr": hdr, "ids": list(so["ids"]), "vals": list(so["vals"]),
-                           "ok": ok})
+                           "ok": ok, "strkeys": bool(so.get("strkeys"))})
         elif kind == "add":
             tgt = rng.choice(wls[-3:]) if rng.random() < 0.75 else rng.choice(wls)
             o = shadow[tgt]
@@ -389,6 +396,15 @@ def _pyfun(fn, rec, intern, multi):
     return lambda x, **kw: record([x])
 
 
+def _is_rowkey(k):
+    return (isinstance(k, int) and not isinstance(k, bool)) or (isinstance(k, str) and k.isnumeric())
+
+
+def _dkey(d, i):
+    """The key under which dictionary d holds row id i."""
+    return i if i in d or str(i) not in d else str(i)
+
+
 def _hdr_group(o):
     if isinstance(o, dict):
         return [id(o[0])]
@@ -398,7 +414,7 @@ def _hdr_group(o):
 
 def _rows_of(o):
     if isinstance(o, dict):
-        return [(k, v) for k, v in o.items() if isinstance(k, int) and k != 0]
+        return [(int(k), v) for k, v in o.items() if k != 0 and _is_rowkey(k)]
     return list(o._data.items())
 
 
@@ -549,7 +565,7 @@ def run_hist(case):
             if list(d.keys()) != keys:
                 return "dictionary (object %d): keys changed from %r to %r" % (k, keys, list(d.keys()))
             for key in keys:
-                if isinstance(key, int):
+                if _is_rowkey(key):
                     if d[key] is not lists[key]:
                         return ("dictionary (object %d): the list under key %r was replaced by another object "
                                 "(was %r, is %r)" % (k, key, lists[key], d[key]))
@@ -573,12 +589,12 @@ def run_hist(case):
                             d[k] = copy.deepcopy(v)
                     d[0] = list(st["hdr"])
                     for i, cells in st["rows"]:
-                        d[int(i)] = copy.deepcopy(cells)
+                        d[str(i) if st.get("strkeys") else int(i)] = copy.deepcopy(cells)
                     for k, v in meta:
                         d.setdefault(k, copy.deepcopy(v))
                     objs.append(d)
-                    owned[len(objs) - 1] = (list(d.keys()), {k: v for k, v in d.items() if isinstance(k, int)},
-                                            {k: Intern.canon(v) for k, v in d.items() if not isinstance(k, int)})
+                    owned[len(objs) - 1] = (list(d.keys()), {k: v for k, v in d.items() if _is_rowkey(k)},
+                                            {k: Intern.canon(v) for k, v in d.items() if not _is_rowkey(k)})
                     mops = ["(ONewDict %s %s)" % (
                         L.zlist([intern.code(n) for n in st["hdr"]]),
                         L.lst([L.pair(L.z(i), L.zlist([intern.code(c) for c in cells])) for i, cells in st["rows"]]))]
@@ -662,9 +678,9 @@ def run_hist(case):
                     assert isinstance(d, dict)
                     try:
                         if op == "dset":
-                            d[st["id"]][st["idx"]] = copy.deepcopy(st["val"])
+                            d[_dkey(d, st["id"])][st["idx"]] = copy.deepcopy(st["val"])
                         elif op == "dapp":
-                            d[st["id"]].append(copy.deepcopy(st["val"]))
+                            d[_dkey(d, st["id"])].append(copy.deepcopy(st["val"]))
                         else:
                             d[0].append(st["name"])
                     except Exception as e:          # noqa
@@ -761,6 +777,8 @@ def hist_classify(case, res):
         out.append("op=" + st["op"] + ("/raised" if o["raised"] else ""))
         if st["op"] == "cons":
             out.append("cons=" + st["cls"] + ("/raised" if o["raised"] else ""))
+        if st["op"] == "newdict" and st.get("strkeys"):
+            out.append("dict_with_numeric_string_row_keys")
         if st["op"] == "newdict" and any(n in ODD_NAMES for n in st["hdr"]):
             out.append("dict_with_non_NFC_column_name")
         if st["op"] == "newdict" and any(n != n.strip() for n in st["hdr"]):
@@ -877,6 +895,23 @@ def gen_matrix(rng, n):
     for i in range(n):
         for j in range(i + 1, n):
             m[i][j] = m[j][i] = rng.choice(vals)
+    shape = rng.random()
+    if shape < 0.1:                       # upper-triangular: the lower half left at zero
+        for i in range(n):
+            for j in range(i):
+                m[i][j] = F(0)
+        kind += "/upper"
+    elif shape < 0.17:                    # lower-triangular
+        for i in range(n):
+            for j in range(i + 1, n):
+                m[i][j] = F(0)
+        kind += "/lower"
+    elif shape < 0.27:                    # not symmetric, some zeros off the diagonal
+        for i in range(n):
+            for j in range(n):
+                if i != j and rng.random() < 0.4:
+                    m[i][j] = rng.choice(vals + [F(0)])
+        kind += "/asym"
     return kind, m
 
 
@@ -1056,6 +1091,8 @@ def pure_nontrivial(case, res):
 
 def pure_classify(case, res):
     out = ["fun=" + case["fun"] + ("/" + case["method"] if "method" in case else ""), "n=%d" % case["n"]]
+    if "/" in case.get("kind", ""):
+        out.append("matrix_shape=" + case["kind"].split("/")[1])
     if case["numpy"]:
         out.append("numpy_matrix")
     if res["res"][0].startswith('"EXC:'):
